@@ -1,6 +1,7 @@
 """C26 - PreservedOrderAllocator tracks allocation order (used-count algebra, shift-down idiom, delegation)."""
 
 from .common import *
+from . import excl
 from ..pm import pmatch, pat, has
 from .C20 import resolve_comb
 
@@ -15,6 +16,7 @@ def check(ctx):
     comp.require_modelled("C26")
     ex = one_config(comp, "C26")
     alloc, free, free_idx, order, clear = (need_body(ex, n, "C26", comp.site) for n in ("alloc", "free", "free_idx", "order", "clear"))
+    excl.exclusive(ctx, "C26", "PreservedOrderAllocator", alloc, free, free_idx)
     rf = returned_fields(order)
     used = rf.get("used")
     o = ex.obj(used) if used else None
